@@ -4,6 +4,7 @@
 // threads (2..8 threads, one instance + history each, seeded yields between API calls; compared with the sequential
 // reference), and the same threads workload in the ThreadSanitizer build (reports are parsed by the supervisor).
 #include "vlib.hpp"
+#include "vsmf.hpp"
 #include <pthread.h>
 #include <sched.h>
 #include <atomic>
@@ -59,7 +60,51 @@ static const bool can_fill = false;
 // ---------------------------------------------------------------------------------------------
 struct HOp { int kind; int a, b, c; };   // 0 noteOn 1 noteOff 2 cc 3 bend 4 program 5 generate(frames=a) 6 generateFormat F32 (frames=a) 7 panic 8 sysex master volume
                                          // 9 setLfoEnabled(a) 10 setLfoFrequency(a) 11 reset 12 setChipType(a) 13 setSoftPanEnabled(a) 14 setVolumeRangeModel(a)
-struct Hist { long rate; int emu; int chips; int chiptype; int pcmrate; std::vector<HOp> ops; };
+struct Hist { long rate; int emu; int chips; int chiptype; int pcmrate; std::vector<HOp> ops; std::vector<uint8_t> song; };
+
+// A small song for the sequencer part of a history: 2..4 tracks on MIDI channels 9..16, a handful of keys, many same-tick
+// note-on/note-off pairs (zero-length notes), keys left hanging at the end in half of the songs; one song in seven has its last
+// track cut between the two data bytes of its last event (such a file must be refused, identically every time)
+static std::vector<uint8_t> c14_song(Rng &r)
+{
+    Song sg; sg.format = 1; sg.division = 96; sg.running_status = r.chance(0.5);
+    int nt = r.range(2, 4); sg.tracks.resize((size_t)nt);
+    static const int keys[] = {60, 62, 64, 65};
+    for(int t = 0; t < nt; t++)
+    {
+        STrack &tr = sg.tracks[(size_t)t]; int serial = 0; uint64_t tick = 0; int ch = 8 + (int)r.below(8);
+        bool held[4] = {false, false, false, false};
+        int n = r.range(3, 10);
+        for(int i = 0; i < n; i++)
+        {
+            tick += (uint64_t)(r.chance(0.4) ? 0 : r.range(1, 48));
+            int ki = (int)r.below(4); SEv e;
+            if(r.chance(0.4) && !held[ki])
+            {   // zero-length note: on and off in one tick
+                e = mk_chan(tick, 0x90 | ch, keys[ki], r.range(40, 127)); e.serial = serial++; tr.ev.push_back(e);
+                e = r.chance(0.5) ? mk_chan(tick, 0x80 | ch, keys[ki], 0) : mk_chan(tick, 0x90 | ch, keys[ki], 0); e.serial = serial++; tr.ev.push_back(e);
+                continue;
+            }
+            if(held[ki]) { e = mk_chan(tick, 0x80 | ch, keys[ki], 0); held[ki] = false; } else { e = mk_chan(tick, 0x90 | ch, keys[ki], r.range(40, 127)); held[ki] = true; }
+            e.serial = serial++; tr.ev.push_back(e);
+        }
+        if(r.chance(0.5)) for(int ki = 0; ki < 4; ki++) if(held[ki]) { SEv e = mk_chan(tick, 0x80 | ch, keys[ki], 0); e.serial = serial++; tr.ev.push_back(e); }
+        tick += (uint64_t)r.range(0, 48);
+        SEv eot = mk_meta(tick, 0x2F, std::vector<uint8_t>()); eot.serial = serial++; tr.ev.push_back(eot);
+    }
+    std::vector<uint8_t> f = serialize_song(sg);
+    if(r.chance(0.15))
+    {   // cut the last track: ... dd 9n kk <end>; its declared length shrinks with it
+        std::vector<uint8_t> lt = serialize_track(sg, sg.tracks[(size_t)nt - 1]);
+        size_t head = f.size() - lt.size();                 // the track body is the tail of the file
+        std::vector<uint8_t> cut(lt.begin(), lt.end() - 4);  // drop "00 FF 2F 00" (delta + End-of-Track)
+        cut.push_back(0); cut.push_back((uint8_t)(0x90 | 9)); cut.push_back(60);      // delta, note-on status, key; no velocity
+        f.resize(head); f.insert(f.end(), cut.begin(), cut.end());
+        size_t lenpos = head - 4; uint32_t L = (uint32_t)cut.size();
+        f[lenpos] = (uint8_t)(L >> 24); f[lenpos + 1] = (uint8_t)(L >> 16); f[lenpos + 2] = (uint8_t)(L >> 8); f[lenpos + 3] = (uint8_t)L;
+    }
+    return f;
+}
 
 static Hist gen_hist(Rng &r, int force_emu = -1)
 {
@@ -91,6 +136,15 @@ static Hist gen_hist(Rng &r, int force_emu = -1)
         h.ops.push_back(o);
     }
     HOp g; g.kind = 5; g.a = (int)std::min<long>(std::max<long>(frames_left, 64), slow ? 300 : 800); g.b = g.c = 0; h.ops.push_back(g);
+    if(r.chance(0.35))
+    {   // sequencer part: a song is loaded somewhere in the history and played through opn2_play in a few blocks
+        h.song = c14_song(r);
+        size_t at = r.below((uint32_t)h.ops.size());
+        HOp ld; ld.kind = 15; ld.a = ld.b = ld.c = 0;
+        std::vector<HOp> ins(1, ld);
+        for(int i = 0, n = r.range(1, 4); i < n; i++) { HOp pl; pl.kind = 16; pl.a = slow ? r.range(50, 200) : r.range(100, 900); pl.b = pl.c = 0; ins.push_back(pl); }
+        h.ops.insert(h.ops.begin() + (long)at, ins.begin(), ins.end());
+    }
     return h;
 }
 
@@ -149,6 +203,8 @@ struct Runner
         case 12: opn2_setChipType(d, o.a); break;
         case 13: opn2_setSoftPanEnabled(d, o.a); break;
         case 14: opn2_setVolumeRangeModel(d, o.a); break;
+        case 15: { int rc = opn2_openData(d, h->song.data(), (unsigned long)h->song.size()); out.pcm.push_back((int16_t)(1000 + rc)); out.pcm.push_back((int16_t)opn2_trackCount(d)); break; }
+        case 16: { size_t at = out.pcm.size(); out.pcm.resize(at + (size_t)o.a * 2 + 2, 0); int got = opn2_play(d, o.a * 2, out.pcm.data() + at); out.pcm[at + (size_t)o.a * 2] = (int16_t)(got & 0x7FFF); out.pcm[at + (size_t)o.a * 2 + 1] = (int16_t)opn2_atEnd(d); break; }
         default: { uint8_t m[] = {0xF0, 0x7F, 0x7F, 0x04, 0x01, 0x00, (uint8_t)o.a, 0xF7}; opn2_rt_systemExclusive(d, m, sizeof(m)); break; }
         }
     }
